@@ -356,3 +356,5 @@ package dns
 //@   callsite "unpack" whole: same(arg0, callres("DecodeString", 0)) && arg1 == 0
 //@   stored at "hdr.Rdlength = uint16(hex.DecodedLen(len(rr.Rdata)))" rdlen: value == callres("DecodedLen") % 65536
 //@   callsite "DecodedLen" text: arg0 == len(rr.Rdata)
+// ... and the typed record must account for every octet: surplus RDATA is an error, as it is on the wire
+//@   exit whole: ret0 == nil && called("unpack") ==> callres("unpack", 0) == len(callres("DecodeString", 0))
